@@ -104,6 +104,12 @@ CLAIMED = {
         '(2) from the Clang AST of main: each data set (Temperature, velocity, Tag, Composition c) receives, at node slot i, the library value of the property its name announces for that node\'s own query, for every composition count.',
    note=TB + 'NOT covered: grid generation for box/chunk/annulus/sphere (about 900 lines of trigonometry and file I/O inside main), cell counts, Depth values, VTU serialisation (vtu11), dim 3 filtering (8 nodes per cell).',
    technique='symbolic execution of clang LLVM IR + z3 for the filter; Clang-AST index arithmetic + z3 for the node values', design='4/C18'),
+ 'C15': dict(
+   text='With randomness modelled as an arbitrary value of its contract (uniform_real_distribution<double>::operator() specialised to a fresh u in [0,1) scaled to [a,b)), the real random-uniform-distribution grains model and the random composition model (continental family, built through their real parse_entries) are executed symbolically: '
+        'every generated orientation satisfies R R^T = I and det R = +1 (polynomial identities over the reals with sin/cos/sqrt uninterpreted under sin^2+cos^2=1 and sqrt contracts, Ackermannised for z3\'s nlsat), normalised sizes sum to one, fixed sizes are returned as given, random compositions lie in [min,max), '
+        'the number and order of draws depends only on model state and request, and the only pre-existing state the model touches is the engine - hence with a deterministic engine the answer is a function of file, seed and query history.',
+   note=TB + 'NOT covered: the Mersenne Twister itself (seeding, "different seeds give different draws": inverting MT19937 is not a bounded query), seeding in World (JSON), the deflected variant and the other feature families (same code pattern, not instantiated), all-zero size draws (probability zero).',
+   technique='symbolic execution of clang LLVM IR + z3 (QF_NRA after Ackermannisation of uninterpreted libm), randomness as a nondeterministic contract stub', design='4/C15'),
 }
 NA_DEFAULT = 'check not built yet (work in progress; see DESIGN.md section 4 for the planned obligations)'
 NA = {
